@@ -402,6 +402,8 @@ def b_list(I, fv, args, kwargs, node):
     if not args:
         return I.alloc(AList([]))
     v = I.force(args[0])
+    if isinstance(v, Unk):
+        return Unk(f"list({v.tag})", v.typ)
     if isinstance(v, Ref) and isinstance(I.deref(v), AList) and I.deref(v).items is None:
         o = I.deref(v)
         return I.alloc(AList(None, o.base, o.universal, o.elem))
